@@ -192,7 +192,7 @@ Inductive op :=
 | OpExtend (l : list arg)
 | OpInsert (i : Z) (a : arg)
 | OpRemove (a : arg)
-| OpPop (i : option Z)        (* None: pop() called without an index *)
+| OpPop (i : option Z)        (* None: pop() called without an index (default -1) *)
 | OpReverse
 | OpClear
 | OpGet (i : Z)
@@ -200,6 +200,20 @@ Inductive op :=
 | OpContains (a : arg).
 
 Definition empty_state : state := ([], []).
+
+(* the second half of TexArgs.insert: where the coerced argument goes in self.all
+   (lst1 is the list after super().insert, i the normalised index) *)
+Definition shadow_insert (lst1 : list group) (all : list item) (i : Z) (it : item) : state * out :=
+  if zlen lst1 <=? 1 then ((lst1, all ++ [it]), ONone)
+  else if i =? 0 then ((lst1, py_insert 0 it all), ONone)
+  else match py_getitem (i - 1) lst1 with                    (* before = self[i - 1] *)
+       | None => ((lst1, all), EIndexError)
+       | Some before =>
+         match py_index (fun x => item_eqb x (IG before)) all with   (* self.all.index(before) *)
+         | None => ((lst1, all), EValueError)
+         | Some j => ((lst1, py_insert (Z.of_nat j + 1) it all), ONone)
+         end
+       end.
 
 Definition m_insert (st : state) (i : Z) (a : arg) : state * out :=
   match coerce a with
@@ -209,16 +223,7 @@ Definition m_insert (st : state) (i : Z) (a : arg) : state * out :=
     let n := zlen lst in
     let i := if i <? 0 then Z.max 0 (n + i) else Z.min i n in
     let lst1 := match it with IG g => py_insert i g lst | IW _ => lst end in
-    if zlen lst1 <=? 1 then ((lst1, all ++ [it]), ONone)
-    else if i =? 0 then ((lst1, py_insert 0 it all), ONone)
-    else match py_getitem (i - 1) lst1 with
-         | None => ((lst1, all), EIndexError)
-         | Some before =>
-           match py_index (fun x => item_eqb x (IG before)) all with
-           | None => ((lst1, all), EValueError)
-           | Some j => ((lst1, py_insert (Z.of_nat j + 1) it all), ONone)
-           end
-         end
+    shadow_insert lst1 all i it
   end.
 
 Definition m_append (st : state) (a : arg) : state * out := m_insert st (zlen (fst st)) a.
@@ -248,21 +253,19 @@ Definition m_remove (st : state) (a : arg) : state * out :=
     end
   end.
 
+(* def pop(self, i=-1): a bare pop() is pop(-1) *)
 Definition m_pop (st : state) (i : option Z) : state * out :=
-  match i with
-  | None => (st, ETypeError)        (* pop() missing 1 required positional argument *)
-  | Some i =>
-    let '(lst, all) := st in
-    match py_pop i lst with
-    | None => (st, EIndexError)
-    | Some (g, lst1) =>
-      match py_index (fun x => item_eqb x (IG g)) all with
-      | None => ((lst1, all), EValueError)
-      | Some j =>
-        match py_pop (Z.of_nat j) all with
-        | None => ((lst1, all), EIndexError)
-        | Some (it, all1) => ((lst1, all1), OVal it)
-        end
+  let i := match i with Some i => i | None => -1 end in
+  let '(lst, all) := st in
+  match py_pop i lst with
+  | None => (st, EIndexError)
+  | Some (g, lst1) =>
+    match py_index (fun x => item_eqb x (IG g)) all with
+    | None => ((lst1, all), EValueError)
+    | Some j =>
+      match py_pop (Z.of_nat j) all with
+      | None => ((lst1, all), EIndexError)
+      | Some (it, all1) => ((lst1, all1), OVal it)
       end
     end
   end.
@@ -546,9 +549,6 @@ Definition obs_model (r : state * out) : list group * Z * pstr * out :=
   (fst (fst r), m_len (fst r), m_str (fst r), obs_out (snd r)).
 Definition obs_ref (r : list group * out) : list group * Z * pstr * out :=
   (fst r, zlen (fst r), concat (map render (fst r)), snd r).
-
-Definition no_bare_pop (o : op) : bool :=
-  match o with OpPop None => false | _ => true end.
 
 Definition is_extend (o : op) : bool :=
   match o with OpExtend _ => true | _ => false end.
